@@ -17,7 +17,7 @@ def unsafe(s):
 
 class P(ServeProp):
     ID = "C17"
-    THEOREMS = ["C17_refuted", "C17_late_codes_fail", "C17_early_codes_ok", "C17_percent_is_eighth", "C17_tables_shape", "C17_roundtrip_partial", "C17_parse_query_spec", "C17_percent_free_round_trip", "C17_encoder_is_characterwise", "C17_round_trip_outside_F1", "C17_F1_class", "C17_percent_free_outside_F1", "C17_fields_round_trip", "C17_fields_domain"]
+    THEOREMS = ["C17_refuted", "C17_late_codes_fail", "C17_early_codes_ok", "C17_percent_is_eighth", "C17_tables_shape", "C17_roundtrip_partial", "C17_parse_query_spec", "C17_percent_free_round_trip", "C17_encoder_is_characterwise", "C17_round_trip_outside_F1", "C17_F1_class", "C17_percent_free_outside_F1", "C17_fields_round_trip", "C17_fields_domain", "C17_last_value_wins", "C17_last_value_domain"]
     COQ_TARGETS = ["theories/Props/C17.vo", "theories/Extract.vo"]
     N_QUICK = 3000
     N_THOROUGH = 80000
@@ -37,7 +37,12 @@ class P(ServeProp):
             elif r < 0.39: out += "%" + rnd.choice(["26", "2B", "3F", "25", "20", "41", "zz", "2", "5D", "0A", "3D", "", "%"])
             elif r < 0.55: out += rnd.choice("é😀ü日本")
             elif r < 0.60: out += rnd.choice("\ufffd\ufeff\ue000\U0010ffff\u00ad\u200b\u0301ßİ")      # printable text a decoder may treat specially: the replacement character, a BOM, private use, the last scalar value, soft hyphen, zero width space, a combining mark
-            else: out += rnd.choice("abcXYZ019_-.~")
+            else:
+                c = rnd.choice("abcXYZ019_-.~")
+                # characters the encoder leaves as they are although they are not unreserved - they travel raw in a request target
+                # (chosen without drawing, so that the streams of earlier runs stay)
+                if c in "_~" and len(out) % 2 == 1: c = "\\^|{}<>`"[len(out) // 2 % 8]
+                out += c
         return out
 
     def gen(self, rnd, tier, n):
